@@ -73,7 +73,7 @@ def inertia_com(V, F):
 
 class C04(World):
     ID = "C04"
-    RUNS = {"quick": 64000, "thorough": 3000000}
+    RUNS = {"quick": 100000, "thorough": 3000000}
     WALL = {"quick": 110.0, "thorough": 1700.0}
     BLOCK = 80
     RULE = (
